@@ -40,7 +40,23 @@ BOUNDS = (
     "thorough: 40), and the boundary limits for padding blocks 16, 128, 468, {1,2,3,7,255,256,"
     "512} and a random one x TSIG off/on (quick: 8 subjects, thorough: 132), each also with "
     "request_payload as the limit at 4 limits; judged by the same clauses (size of every "
-    "zero-length option = its 4-octet header, OPT RDATA compared octet for octet).  Time-boxed at 88% "
+    "zero-length option = its 4-octet header, OPT RDATA compared octet for octet).  Options that ALREADY "
+    "hold a PADDING option (RFC 7830, code 12) while padding is requested, own seeded generator, run "
+    "after the zero-length class: messages of 580-1000 octets whose option list holds a "
+    "dns.edns.GenericOption(PADDING, n zero octets), n in {0,1,7,33} (thorough: also 2..64 random), "
+    "alone / first / last / in the middle of 2-3 other options / twice, x TSIG off/on x block in "
+    "{16,32,128,468} (thorough: also {1,2,3,7,255,256,512,random}): the boundary limits (quick: 10 "
+    "subjects covering every n, every position, every block and both TSIG settings; thorough: 240) "
+    "and every limit 512..len+16 (quick: 1 subject, thorough: 8), x prefer_truncation off/on, "
+    "judged by the same clauses (the pre-existing option counts 4+n octets and must be kept; the "
+    "final length, TSIG included, is a multiple of the block).  Re-send flow: a padded query "
+    "(make_query, 0-2 other options, first block in {16,32,128,468,random}, TSIG off/on with a key "
+    "name unrelated to the question) is rendered, parsed by dns.message.from_wire, and its "
+    "received.options are handed to use_edns(options=received.options, pad=block) on a new "
+    "query, on make_response(received) and on the parsed message itself, block in "
+    "{16,32,128,468} and random (quick: 90 flows, thorough: 1 200): both renderings must have a "
+    "length that is a multiple of their block and must parse (independent decoder and "
+    "dns.message.from_wire, TSIG verified).  Time-boxed at 88% "
     "of the tier budget.  TSIG uses HMAC only; nothing here needs the `cryptography` package "
     "(GSS-TSIG, whose MAC size is not predictable, is out of scope)."
 )
@@ -89,6 +105,45 @@ SIG_EMPTY_DROPPED = {
 }
 
 
+# A PADDING option that is already in the option list when padding is requested (RFC 7830: the
+# option is ordinary option data; a parsed padded message carries it in .options).  It occupies
+# 4+n octets like any other option, and the length of the rendering must still be a multiple.
+_PREPAD_LENS = (0, 1, 7, 33)
+_PREPAD_WHERE = ("alone", "first", "last", "middle", "twice")
+_PREPAD_BLOCKS = (16, 32, 128, 468)
+SIG_PREPAD = {
+    "site": "Renderer.add_opt",
+    "class": "length not a multiple of the block: the option list already holds a PADDING option (code 12)",
+}
+
+
+def _prepad_options(rng, variant):
+    """[(code, data)] holding a PADDING option of variant["padlen"] zero octets at the position
+    variant["where"]: alone; first / last / middle: before / after / among 2-3 other options;
+    twice: two PADDING options (the second of a seeded length) around the other options."""
+    old = (12, b"\x00" * int(variant["padlen"]))
+    where = variant["where"]
+    if where == "alone":
+        return [old]
+    full = [(c, v) for c, v in M.gen_options(rng, maxn=3, maxlen=12) if c != 12]
+    while len(full) < 2:
+        full.append((rng.choice((65001, 65534, 4, 11)), bytes(rng.getrandbits(8) for _ in range(rng.randint(0, 9)))))
+    if where == "first":
+        return [old] + full
+    if where == "last":
+        return full + [old]
+    if where == "middle":
+        i = rng.randint(1, len(full) - 1)
+        return full[:i] + [old] + full[i:]
+    return [old] + full + [(12, b"\x00" * rng.choice(_PREPAD_LENS + (rng.randint(2, 64),)))]
+
+
+def _variant_options(rng, variant):
+    if variant["opts"] == "prepad":
+        return _prepad_options(rng, variant)
+    return _empty_pattern_options(rng, variant["opts"])
+
+
 def _empty_pattern_options(rng, pattern):
     """[(code, data)] holding at least one option with a zero-length payload.
     nsid: the single NSID request; empties: 2-5 empty options (codes may repeat);
@@ -124,7 +179,9 @@ class Subject:
         zero-length-option class, {"opts": pattern, "tsig": bool, "pad": int, "generic": bool};
         EDNS is forced on, the option list is replaced by one of _EMPTY_PATTERNS, padding block
         and TSIG are as stated, and the message is kept small (580-1000 octets) so that
-        every limit can be swept cheaply."""
+        every limit can be swept cheaply.  {"opts": "prepad", "padlen": n, "where": one of
+        _PREPAD_WHERE, "tsig", "pad"}: the class whose option list already holds a PADDING
+        option of n octets (see _prepad_options)."""
         self.sub = sub
         self.variant = variant
         rng = random.Random(sub)
@@ -168,7 +225,7 @@ class Subject:
             mult *= 2
         self.m = m
         if variant is not None:
-            m.options = _empty_pattern_options(rng, variant["opts"])
+            m.options = _variant_options(rng, variant)
         # configuration
         self.pad = 0
         if variant is not None:
@@ -252,7 +309,9 @@ class Subject:
 
                 opts = []
                 for code, data in m.options:
-                    if not data and (code != 3 or self.variant.get("generic", True)):
+                    if code == 12:
+                        opts.append(dns.edns.GenericOption(dns.edns.OptionType.PADDING, data))
+                    elif not data and (code != 3 or self.variant.get("generic", True)):
                         opts.append(dns.edns.GenericOption(code, b""))
                     else:
                         opts.append(dns.edns.option_from_wire(code, data, 0, len(data)))
@@ -355,6 +414,16 @@ class Subject:
                     "C08.padding_multiple",
                     f"padding block {self.pad}: final length {len(w)} is not a multiple; the TSIG owner name was compressed ({saved} octets saved) after the padding had been sized for the uncompressed record",
                     SIG_PAD_TSIG,
+                )
+            elif any(c == 12 for c, _ in m.options):
+                held = [len(v) for c, v in m.options if c == 12]
+                _f(
+                    out,
+                    "C08.padding_multiple",
+                    f"padding block {self.pad}: final length {len(w)} is not a multiple (tsig={'yes' if self.tsig else 'no'}); "
+                    f"the option list already held PADDING option(s) of {held} octets ({len(m.options)} options in all), "
+                    f"the length is {(-len(w)) % self.pad} short of / {len(w) % self.pad} past a multiple",
+                    dict(SIG_PREPAD, tsig=bool(self.tsig)),
                 )
             else:
                 _f(
@@ -495,7 +564,12 @@ class Subject:
                     good = rd == base
             if not good:
                 sig = {"site": "Renderer.add_opt", "class": "OPT differs"}
-                if got.rdtype == 41 and any(not v for _, v in m.options):
+                rd = got.fields[0][1] if got.rdtype == 41 and got.fields else b""
+                kept = b"".join(struct.pack("!HH", c, len(v)) + v for c, v in m.options if c != 12)
+                if got.rdtype == 41 and self.pad and any(c == 12 for c, _ in m.options) and rd.startswith(kept) and rd[len(kept) : len(kept) + 2] == b"\x00\x0c":
+                    # the same OPT with the PADDING option(s) of the option list left out
+                    sig = {"site": "Renderer.add_opt", "class": "OPT differs: the PADDING option already in the option list is missing from the rendered OPT"}
+                elif got.rdtype == 41 and any(not v for _, v in m.options):
                     # the same OPT with every zero-length option left out?
                     rd = got.fields[0][1] if got.fields else b""
                     stripped = b"".join(struct.pack("!HH", c, len(v)) + v for c, v in m.options if v)
@@ -864,6 +938,11 @@ def run(R):
     # the ordinary subjects of a given seed, are the same as without this block)
     _empty_option_cases(R, new_subject)
 
+    # ---- option lists that already hold a PADDING option while padding is requested, and the
+    # flow "parse a padded query, re-send its options with pad=block" (own generators as well)
+    _prepadded_cases(R, new_subject)
+    _resend_cases(R)
+
     # ---- boundary limits + request_payload route + low-level renderer, many subjects
     for i in range(n_bound + n_full):
         if _stop(R):
@@ -977,6 +1056,206 @@ def _empty_option_cases(R, new_subject):
     R.note(f"zero-length-option subjects {done}, outcomes {stats}")
 
 
+def _prepad_plan(quick, vr):
+    """(variant, sweep) list for the class 'the option list already holds a PADDING option'."""
+    plan = []
+
+    def add(n, where, tsig, pad, sweep):
+        plan.append(({"opts": "prepad", "padlen": n, "where": where, "tsig": tsig, "pad": pad, "generic": True}, sweep))
+
+    other_pads = (1, 2, 3, 7, 255, 256, 512)
+    if quick:
+        add(vr.choice((1, 7, 33)), vr.choice(("last", "middle", "alone")), False, vr.choice((16, 32)), "every")
+        wheres = list(_PREPAD_WHERE) * 2
+        lens = list(_PREPAD_LENS) * 2 + [33, 7]
+        blocks = list(_PREPAD_BLOCKS) * 2 + [32, 468]
+        tsigs = [False, True] * 5
+        for x in (wheres, lens, blocks, tsigs):
+            vr.shuffle(x)
+        for n, where, tsig, pad in zip(lens, wheres, tsigs, blocks):
+            add(n, where, tsig, pad, "bounds")
+        return plan
+    for rep in range(8):
+        add(vr.choice(_PREPAD_LENS), vr.choice(_PREPAD_WHERE), rep % 2 == 1, vr.choice(_PREPAD_BLOCKS + (vr.choice(other_pads),)), "every")
+    i = 0
+    for rep in range(2):
+        for where in _PREPAD_WHERE:
+            for tsig in (False, True):
+                for pad in _PREPAD_BLOCKS + other_pads + (vr.randint(1, 600),):
+                    n = (_PREPAD_LENS + (vr.randint(2, 64), vr.randint(2, 64)))[i % 6]
+                    i += 1
+                    add(n, where, tsig, pad, "bounds")
+    return plan
+
+
+def _prepadded_cases(R, new_subject):
+    """Subjects whose option list already holds a PADDING option (code 12) while padding is
+    requested: the pre-existing option is ordinary option data (4+n octets, kept), a new one is
+    appended, and the final length, TSIG included, is a multiple of the block."""
+    vr = random.Random(R.seed * 7927 + 0xC08C)
+    stats = {}
+    done = 0
+    for variant, sweep in _prepad_plan(R.quick, vr):
+        if _stop(R):
+            R.note(f"time budget reached after {done} pre-existing-padding subjects")
+            break
+        s = new_subject(variant=variant, rng=vr)
+        if s is None:
+            R.note(f"no usable pre-existing-padding subject for {variant}")
+            continue
+        if not any(c == 12 for c, _ in s.m.options) or s.m.edns < 0 or not s.pad:
+            R.note(f"harness: sub={s.sub} {variant} has no pre-existing PADDING option")
+            continue
+        done += 1
+        limits = range(512, len(s.full) + 17) if sweep == "every" else s.boundary_limits()
+        R.sample("C08.padding_multiple", dict(_describe(s), limits=len(limits), sweep="every limit" if sweep == "every" else "boundaries"))
+        if not _sweep(R, s, limits, stats):
+            break
+        bl = s.boundary_limits()
+        cache = {}
+        for L in vr.sample(bl, min(4, len(bl))):
+            for pt in (False, True):
+                desc = {"sub": s.sub, "L": L, "pt": pt, "route": "payload", "huge": False, "variant": variant}
+                findings, outcome = s.check_limit(L, pt, "payload", cache)
+                R.case("C08.within_limit", key=(s.sub, L, pt, "payload"), nontrivial=outcome == "returned")
+                if outcome == "returned":
+                    R.case("C08.padding_multiple", key=(s.sub, L, pt, "payload"))
+                _record(R, s, findings, desc)
+    R.note(f"pre-existing-padding subjects {done}, outcomes {stats}")
+
+
+# ----------------------------------------------------------------------------- re-send flow
+_RESEND_AS = ("query", "response", "same")
+
+
+def _resend_flow(desc):
+    """A padded query is rendered and parsed; its received.options (which hold the PADDING option)
+    are handed to use_edns(options=received.options, pad=block) on a new query / on
+    make_response(received) / on the parsed message itself, which is rendered again.
+    Returns (findings, reached): both renderings must be a multiple of their block and parse."""
+    import dns.edns
+    import dns.message
+    import dns.name
+    import dns.tsig
+
+    out = []
+    rng = random.Random(desc["sub"])
+    pad1, block, tsig, as_ = int(desc["pad1"]), int(desc["block"]), bool(desc["tsig"]), desc["as"]
+    labels = tuple(bytes(rng.choice(b"abcdefghijklmnopqrstuvwxyz0123456789-") for _ in range(rng.randint(1, 20))) for _ in range(rng.randint(1, 5)))
+    qname = dns.name.Name(labels + (b"",))
+    rdtype = rng.choice((1, 28, 15, 16, 33, 65, 255))
+    extra = []
+    for code, data in M.gen_options(rng, maxn=2, maxlen=12):
+        if code != 12:
+            extra.append(dns.edns.GenericOption(code, data) if not data else dns.edns.option_from_wire(code, data, 0, len(data)))
+    key = None
+    if tsig:
+        alg, _macsize = rng.choice(_ALGS)
+        # unrelated to the question name: nothing of the key name can be compressed
+        key = dns.tsig.Key(dns.name.Name((b"tsig-key", b"elsewhere", b"")), bytes(rng.getrandbits(8) for _ in range(32)), dns.name.Name(alg))
+
+    def multiple(w, blk, step, held):
+        if len(w) % blk:
+            if held:
+                _f(
+                    out,
+                    "C08.padding_multiple",
+                    f"re-send flow ({step}, as {as_}): use_edns(options=received.options, pad={blk}) with received PADDING option(s) of {held} octets "
+                    f"rendered {len(w)} octets, {(-len(w)) % blk} short of a multiple (tsig={'yes' if tsig else 'no'})",
+                    dict(SIG_PREPAD, tsig=tsig),
+                )
+            else:
+                _f(
+                    out,
+                    "C08.padding_multiple",
+                    f"re-send flow ({step}): padding block {blk}: final length {len(w)} is not a multiple (tsig={'yes' if tsig else 'no'})",
+                    {"site": "Renderer.add_opt", "class": "length not a multiple of the block", "tsig": tsig},
+                )
+
+    def parses(w, step, **kw):
+        try:
+            d = M.decode(w)
+            if d.problems:
+                raise M.DecodeError(d.problems[0])
+        except M.DecodeError as e:
+            _f(out, "C08.parseable", f"re-send flow ({step}): independent decoder cannot walk the output: {e}", {"site": "Message.to_wire", "class": "output not a well-formed message"})
+            return None
+        try:
+            return dns.message.from_wire(w, **kw)
+        except Exception as e:
+            _f(out, "C08.parseable", f"re-send flow ({step}): dns.message.from_wire rejects the output: {type(e).__name__}: {e}", {"site": "dns.message.from_wire(output)", "exc": type(e).__name__})
+            return None
+
+    try:
+        q = dns.message.make_query(qname, rdtype, use_edns=0, options=extra, pad=pad1, id=rng.getrandbits(16))
+        if key is not None:
+            q.use_tsig(key)
+        w1 = q.to_wire()
+    except Exception as e:
+        _f(out, "C08.toobig_or_truncate", f"re-send flow: rendering the padded query raised {type(e).__name__}: {e}", {"site": "dns.message.Message.to_wire", "exc": type(e).__name__})
+        return out, False
+    multiple(w1, pad1, "first rendering", [])
+    received = parses(w1, "first rendering", keyring=key)
+    if received is None:
+        return out, False
+    held = [len(o.to_wire()) for o in received.options if int(o.otype) == 12]
+    if not held:
+        return out, False  # the judge of the first rendering has said why
+    try:
+        kw = {}
+        if as_ == "query":
+            m2 = dns.message.make_query(qname, rdtype, id=received.id)
+            if key is not None:
+                m2.use_tsig(key)
+        elif as_ == "response":
+            m2 = dns.message.make_response(received)
+            if key is not None:
+                kw["request_mac"] = received.mac
+        else:
+            m2 = received
+            if key is not None:
+                m2.use_tsig(key)
+        m2.use_edns(0, options=received.options, pad=block)
+        w2 = m2.to_wire()
+    except Exception as e:
+        _f(out, "C08.toobig_or_truncate", f"re-send flow (as {as_}): rendering with the received options raised {type(e).__name__}: {e}", {"site": "dns.message.Message.to_wire", "exc": type(e).__name__, "class": "received options re-sent"})
+        return out, True
+    multiple(w2, block, "second rendering", held)
+    p2 = parses(w2, "second rendering", keyring=key, **kw)
+    if p2 is not None and (p2.opt is None or bool(p2.had_tsig) != tsig or p2.question != m2.question):
+        _f(out, "C08.parseable", f"re-send flow (as {as_}): the second rendering parses but OPT/TSIG/question disagree", {"site": "dns.message.from_wire(output)", "class": "parsed message inconsistent"})
+    return out, True
+
+
+def _resend_cases(R):
+    vr = random.Random(R.seed * 7933 + 0xC08D)
+    done = reached = 0
+    for rep in range(3 if R.quick else 40):
+        for tsig in (False, True):
+            for block in _PREPAD_BLOCKS + (vr.randint(1, 600),):
+                for as_ in _RESEND_AS:
+                    if _stop(R):
+                        R.note(f"time budget reached after {done} re-send flows")
+                        return
+                    pad1 = vr.choice(_PREPAD_BLOCKS + (vr.randint(2, 600),))
+                    desc = {"route": "resend", "sub": vr.getrandbits(48), "pad1": pad1, "block": block, "tsig": tsig, "as": as_}
+                    try:
+                        findings, ok = _resend_flow(desc)
+                    except Exception as e:
+                        R.note(f"harness error in the re-send flow {desc}: {type(e).__name__}: {e}")
+                        continue
+                    done += 1
+                    reached += ok
+                    key = ("resend", desc["sub"], pad1, block, tsig, as_)
+                    R.case("C08.padding_multiple", key=key, nontrivial=ok)
+                    R.case("C08.parseable", key=key, nontrivial=ok)
+                    if done <= 2:
+                        R.sample("C08.padding_multiple", desc)
+                    for f in findings:
+                        R.violation(f["clause"], f["what"], sig=f["sig"], replay={"desc": desc, "clause": f["clause"], "sig": f["sig"]})
+    R.note(f"re-send flows {done}, of which {reached} re-sent a received PADDING option")
+
+
 def _huge(R, s):
     """A message that cannot fit 65535 octets: max_size=0 (and > 65535) must clamp."""
     import dns.exception
@@ -1076,6 +1355,12 @@ def replay(data):
     desc = data["desc"]
     want_clause = data.get("clause")
     want_sig = data.get("sig") or {}
+    if desc.get("route") == "resend":
+        findings, _ = _resend_flow(desc)
+        for f in findings:
+            if f["clause"] == want_clause and (not want_sig or repr(sorted(f["sig"].items())) == repr(sorted(want_sig.items()))):
+                return True, f["what"]
+        return False, f"clause holds for the re-send flow (pad {desc['pad1']} then {desc['block']}, as {desc['as']})"
     s = Subject(desc["sub"], huge=desc.get("huge", False), variant=desc.get("variant"))
     if s.problem:
         return True, s.problem
